@@ -115,8 +115,16 @@ def module_level(R, rng, ncells, drv=None):
             cell.select(nodes=rows).insert(ch)
         if rng.random() < 0.3 and "HH" in names:          # two HH-type channels in one compartment
             ch2 = HH().change_name("HH2"); chans.append(("HH", ch2)); cell.insert(ch2)
-        cell.set("v", rng.uniform(-120, 60, n))
-        for key in ("vt", "Km_taumax", "CaT_vx"):
+        # voltages: independent per compartment, or SHARED by several compartments whose parameters differ (the steady state
+        # of a compartment depends on its own parameters also when another compartment sits at exactly the same voltage)
+        def draw_v():
+            if rng.random() < 0.5:
+                return rng.uniform(-120, 60, n)
+            pool = rng.uniform(-120, 60, int(rng.integers(1, 3)))
+            return pool[rng.integers(0, len(pool), n)]
+        cell.set("v", draw_v())
+        R.count("voltages:" + ("shared" if len(set(cell.nodes["v"].tolist())) < n else "distinct"))
+        for key in [c_ for c_ in cell.nodes.columns if c_ == "vt" or c_.endswith("_taumax") or c_.endswith("_vx")]:
             if key in cell.nodes.columns:
                 lo, hi = PR[key.split("_")[-1]]
                 rows = cell.nodes.index[~cell.nodes[key].isna()].to_numpy()
@@ -125,8 +133,8 @@ def module_level(R, rng, ncells, drv=None):
             if phase == "after-parameter-change":
                 # the module has been used (its jax tables exist); parameters and voltages change; init_states is called AGAIN
                 cell.to_jax()
-                cell.set("v", rng.uniform(-120, 60, n))
-                for key in ("vt", "Km_taumax", "CaT_vx"):
+                cell.set("v", draw_v())
+                for key in [c_ for c_ in cell.nodes.columns if c_ == "vt" or c_.endswith("_taumax") or c_.endswith("_vx")]:
                     if key in cell.nodes.columns:
                         lo, hi = PR[key.split("_")[-1]]
                         rows = cell.nodes.index[~cell.nodes[key].isna()].to_numpy()
